@@ -85,6 +85,12 @@ class _Clock:
         return NOW
 
     def sleep(self, s):
+        # a shorter sleep: return as soon as the GC thread the caller is polling for has finished
+        cur = threading.current_thread()
+        for t in threading.enumerate():
+            if t is not cur and t.daemon and type(t).__name__.endswith("HistoryGC"):
+                t.join(min(s, 0.05))
+                return
         _real_time.sleep(min(s, 0.0002))
 
     def __getattr__(self, name):
@@ -124,21 +130,29 @@ def _setup(scratch):
 
     threading.excepthook = hook
     signal.signal(signal.SIGALRM, _alarm)
-    base = os.path.join(scratch, "c14")
+    base = os.path.join(scratch, "c14-%d" % os.getpid())   # one data dir per worker process
     _state.update(XSH=XSH, xhj=xhj, xhs=xhs, xlj=xlj, base=base,
                   data=os.path.join(base, "data"), hist=os.path.join(base, "data", "history_json"),
                   custom=os.path.join(base, "custom"), default_size=XSH.env.get("XONSH_HISTORY_SIZE"))
     return _state
 
 
-def _wipe(d):
+def _unset(env, name):
+    try:
+        del env[name]
+    except KeyError:
+        pass
+
+
+def _wipe(d, keep=()):
     if os.path.isdir(d) and not os.path.islink(d):
-        for name in os.listdir(d):
-            p = os.path.join(d, name)
-            if os.path.isdir(p) and not os.path.islink(p):
-                shutil.rmtree(p)
+        for ent in os.scandir(d):
+            if ent.name in keep:
+                continue
+            if ent.is_dir(follow_symlinks=False):
+                shutil.rmtree(ent.path)
             else:
-                os.remove(p)
+                os.remove(ent.path)
     else:
         os.makedirs(d)
 
@@ -170,12 +184,12 @@ def spell(unit, L, choice, need_word=False):
             if q.denominator in (1, 2, 4, 8):
                 num = str(int(q)) if q.denominator == 1 else repr(float(q))
                 opts.append((num, word))
-                if q.denominator == 1 and q != 0 and int(q) % 10 == 0:
-                    n, e = abs(int(q)), 0
+                if q.denominator == 1 and q > 0 and int(q) % 10 == 0:
+                    n, e = int(q), 0
                     while n % 10 == 0:
                         n //= 10
                         e += 1
-                    opts.append(("%s%de%d" % ("-" if q < 0 else "", n, e), word))
+                    opts.append(("%de%d" % (n, e), word))
         elif q.denominator == 1:
             opts.append((str(int(q)), word))
     if not opts:
@@ -260,9 +274,9 @@ def _prepare_json(case):
     """Write the collection; return the per-member facts the model needs."""
     st = _state
     xlj = st["xlj"]
-    for d in (st["data"], st["custom"]):
-        _wipe(d)
-    os.makedirs(st["hist"], exist_ok=True)
+    _wipe(st["data"], keep=("history_json",))
+    _wipe(st["hist"])
+    _wipe(st["custom"])
     for where, name in DECOYS:
         with open(os.path.join(st[where], name), "w") as f:
             f.write('{"cmds": []}')
@@ -655,11 +669,11 @@ def run_sqlite_case(case, tolerate=True, stats=None):
     st = _state
     XSH, xhs = st["XSH"], st["xhs"]
     env = XSH.env
-    for d in (st["data"], st["custom"]):
-        _wipe(d)
+    _wipe(st["data"])
+    _wipe(st["custom"])
     env["XONSH_DATA_DIR"] = st["data"]
     env["XONSH_HISTORY_FILE"] = None
-    env["XONSH_HISTORY_SQLITE_FILE"] = None
+    _unset(env, "XONSH_HISTORY_SQLITE_FILE")
     mode = case.get("file", "default")
     fname = None
     if mode == "envfile":
@@ -686,12 +700,24 @@ def run_sqlite_case(case, tolerate=True, stats=None):
         XSH.history = hist
         if fname is not None:
             env["XONSH_HISTORY_FILE"] = hist.filename
+        # the first two rows of the own session go through SqliteHistory.append, every other row through
+        # the backend's own insert function on one shared connection (an append costs a connection each)
+        own_left = 2
+        bulk = []
         for i, r in enumerate(rows):
             cmd = {"inp": "cmd-%d\n" % i, "rtn": 0, "ts": [NOW - r["age"], NOW - r["age"] + 0.25]}
-            if r["sess"] == 0:
+            if r["sess"] == 0 and own_left:
+                own_left -= 1
                 hist.append(cmd)
             else:
-                xhs.xh_sqlite_append_history(cmd, "other-%d" % r["sess"], False, filename=hist.filename)
+                bulk.append((cmd, "own" if r["sess"] == 0 else "other-%d" % r["sess"]))
+        if bulk:
+            with xhs._xh_sqlite_get_conn(filename=hist.filename) as conn:
+                cur = conn.cursor()
+                xhs._xh_sqlite_create_history_table(cur)
+                for cmd, sid in bulk:
+                    xhs._xh_sqlite_insert_command(cur, cmd, sid, False)
+                conn.commit()
 
     def read():
         con = sqlite3.connect(box["hist"].filename)
@@ -733,7 +759,8 @@ def run_sqlite_case(case, tolerate=True, stats=None):
     finally:
         env["XONSH_HISTORY_SIZE"] = st["default_size"]
         env["XONSH_HISTORY_FILE"] = None
-        env["XONSH_HISTORY_SQLITE_FILE"] = None
+        _unset(env, "XONSH_HISTORY_SQLITE_FILE")
+        _unset(env, "XONSH_HISTORY_FILENAME")
         XSH.history = None
 
     n = len(before)
@@ -766,7 +793,7 @@ def run_sqlite_case(case, tolerate=True, stats=None):
         return fail("gc-exception", "run_gc raised %s" % exc)
     if texc:
         return fail("gc-crash", "the GC thread died with %s" % "; ".join(texc))
-    if after != before[n - len(after):] if after else False:
+    if after and after != before[n - len(after):]:
         return fail("not-newest-kept", "rows left %r are not the newest rows of %r" % (
             [r[0] for r in after], [r[0] for r in before]))
     if ndel not in allowed:
@@ -927,35 +954,56 @@ def worker_exhaustive(arg):
 # ----------------------------------------------------------------------------------------
 # generated collections (Hypothesis)
 
-_AGE_STEPS = (1, 1, 1, 60, 60, 3600, 3600, 86400, 86400, 2_629_800, 31_557_600)
+_AGE_POOL = sorted({step * k + half for step in (1, 60, 3600, 86400, 2_629_800, 31_557_600)
+                    for k in range(1, 41) for half in (0, 0, 0.5) if not (half and step > 3600)})
+_KIND_LOCK = ([("ok", "no")] * 14 + [("ok", "live")] * 5 + [("ok", "stale")] * 5 + [("zero", "no")] * 3
+              + [("corrupt", "no")] * 2 + [("corrupt", "live")] + [("nots", "no")] * 2)
+_NCMDS_PAD = [(c, p) for c in (0, 0, 1, 1, 2, 2, 3, 3, 4, 5, 6, 9, 17, 40) for p in (0, 0, 0, 1, 7, 100, 1000, 5000)]
+_WHERE = ["hist"] * 8 + ["data", "data", "custom"]
+_CUTS = [0.5, 0.01, 0.03, 0.1, 0.3, 0.7, 0.9, 0.99, 1.0]
+_DURS = [10, 0.5, 10, 3600, 86400 * 3]
+_CUSTOM_NAMES = ["myhist.json", ".xonsh_history", "xonsh-custom.json"]
 
 
 def json_case_strategy(max_files=8):
+    """Few, wide draws per case (Hypothesis' cost is per draw); minor attributes of a member are decoded
+    from one integer.  Failing cases are reduced by reduce_case(), not by Hypothesis."""
     from hypothesis import strategies as hs
 
-    age = hs.builds(lambda step, k, half: step * k + (0.5 if half else 0),
-                    hs.sampled_from(_AGE_STEPS), hs.integers(1, 40), hs.sampled_from([False] * 5 + [True]))
+    # strategy objects are built once (building one inside the composite re-validates it on every draw)
+    s_n = hs.integers(0, max_files)
+    s_ages = {k: hs.lists(hs.integers(0, len(_AGE_POOL) - 1), min_size=k, max_size=k, unique=True)
+              for k in range(max_files + 1)}
+    s_rot = hs.integers(0, 8)
+    s_own = hs.sampled_from(["unset", "own-default", "own-default", "own-custom"])
+    s_kl = hs.sampled_from(_KIND_LOCK)
+    s_cp = hs.sampled_from(_NCMDS_PAD)
+    s_x = hs.integers(0, 2 ** 20 - 1)
+    s_unit = hs.sampled_from(UNITS)
+    s_akind = hs.sampled_from(["suffix"] * 5 + ["prefix"] * 3 + ["total"] * 2 + ["abs"] * 3)
+    s_abs = hs.sampled_from([0, 0, 1, 2, 3, 5, 8, 13, 60, 4096, 10 ** 6, 10 ** 12, -1, -3])
+    s_d = {True: hs.sampled_from([0, -1, 1, -0.5, 0.5]), False: hs.sampled_from([0, -1, 1])}
+    s_y = hs.integers(0, 2 ** 12 - 1)
 
     @hs.composite
     def cases(draw):
-        n = draw(hs.integers(0, max_files))
-        ages = draw(hs.lists(age, min_size=n, max_size=n, unique=True))
-        names = draw(hs.permutations(_NAMES))
-        own = draw(hs.sampled_from(["unset", "own-default", "own-default", "own-custom"]))
+        n = draw(s_n)
+        ages = [_AGE_POOL[i] for i in draw(s_ages[n])]
+        rot = draw(s_rot)
+        own = draw(s_own)
         files = []
         used_ages = set()
         have_nots = have_custom = False
         for i in range(n):
             a = ages[i]
-            kind = draw(hs.sampled_from(["ok"] * 12 + ["zero", "zero", "corrupt", "corrupt", "nots"]))
-            lock = draw(hs.sampled_from(["no"] * 6 + ["live", "live", "stale", "stale"]))
+            kind, lock = draw(s_kl)
+            ncmds, pad = draw(s_cp)
+            x = draw(s_x)
             if kind == "nots":
                 if have_nots:
                     kind = "ok"
                 else:
-                    have_nots, lock = True, "no"
-            if kind == "zero":
-                lock = "no"
+                    have_nots = True
             if lock == "live" and a > BOOT_AGE:
                 a = a % BOOT_AGE + 1
             if lock == "stale" and a <= BOOT_AGE:
@@ -965,39 +1013,39 @@ def json_case_strategy(max_files=8):
                 if lock == "live" and a > BOOT_AGE:
                     lock = "no"
             used_ages.add(a)
-            m = {"id": "m%d" % i, "name": "xonsh-%s%d.json" % (names[i], i), "where": "hist", "kind": kind,
-                 "lock": lock, "age": a,
-                 "ncmds": draw(hs.sampled_from([0, 0, 1, 1, 2, 2, 3, 3, 4, 5, 6, 9, 17, 40])),
-                 "pad": draw(hs.sampled_from([0, 0, 0, 1, 7, 100, 1000, 5000]))}
-            if kind == "zero":
-                m["ncmds"] = 0
+            m = {"id": "m%d" % i, "name": "xonsh-%s%d.json" % (_NAMES[(i * 5 + rot) % 9], i), "where": "hist",
+                 "kind": kind, "lock": lock, "age": a, "ncmds": 0 if kind == "zero" else ncmds, "pad": pad}
+            where = _WHERE[x % len(_WHERE)]
+            x //= len(_WHERE)
             if kind == "corrupt":
-                m["corrupt"] = draw(hs.sampled_from(CORRUPT_KINDS))
-                m["cutfrac"] = draw(hs.sampled_from([0.01, 0.03, 0.1, 0.3, 0.5, 0.7, 0.9, 0.99, 1.0]))
+                m["corrupt"] = CORRUPT_KINDS[x % len(CORRUPT_KINDS)]
+                x //= len(CORRUPT_KINDS)
+                m["cutfrac"] = _CUTS[x % len(_CUTS)]
+                x //= len(_CUTS)
             if kind == "ok" and lock == "no":
-                m["dur"] = draw(hs.sampled_from([0.5, 10, 10, 3600, 86400 * 3]))
-                m["noclose"] = draw(hs.sampled_from([False] * 7 + [True]))
-            where = draw(hs.sampled_from(["hist"] * 8 + ["data", "data", "custom"]))
+                m["dur"] = _DURS[x % len(_DURS)]
+                x //= len(_DURS)
+                m["noclose"] = x % 8 == 7
+                x //= 8
             if where == "custom":
-                if have_custom or own == "own-custom" or m["kind"] == "corrupt" and m.get("corrupt") in ("dir", "dangling"):
+                if have_custom or own == "own-custom" or m.get("corrupt") in ("dir", "dangling"):
                     where = "hist"
                 else:
                     have_custom = True
-                    m["name"] = draw(hs.sampled_from(["myhist.json", ".xonsh_history", "xonsh-custom.json"]))
+                    m["name"] = _CUSTOM_NAMES[x % len(_CUSTOM_NAMES)]
             m["where"] = where
             files.append(m)
-        unit = draw(hs.sampled_from(UNITS))
-        dpool = [-1, -0.5, 0, 0.5, 1] if unit == "s" else [-1, 0, 1]
-        akind = draw(hs.sampled_from(["suffix"] * 5 + ["prefix"] * 3 + ["total"] * 2 + ["abs"] * 3))
+        unit = draw(s_unit)
+        akind = draw(s_akind)
         if akind == "abs":
-            anchor = ["abs", draw(hs.sampled_from([-3, -1, 0, 0, 1, 2, 3, 5, 8, 13, 60, 4096, 10 ** 6, 10 ** 12]))]
+            anchor = ["abs", draw(s_abs)]
         elif akind == "total":
-            anchor = ["total", 0, draw(hs.sampled_from(dpool))]
+            anchor = ["total", 0, draw(s_d[unit == "s"])]
         else:
-            anchor = [akind, draw(hs.integers(0, max_files)), draw(hs.sampled_from(dpool))]
+            anchor = [akind, draw(s_n), draw(s_d[unit == "s"])]
+        y = draw(s_y)
         return {"backend": "json", "files": files, "limit": {"unit": unit, "anchor": anchor},
-                "force": draw(hs.booleans()), "route": draw(hs.sampled_from(ROUTES)), "own": own,
-                "spell": draw(hs.integers(0, 63))}
+                "force": bool(y & 1), "route": ROUTES[(y >> 1) % len(ROUTES)], "own": own, "spell": y >> 4}
 
     return cases()
 
@@ -1051,6 +1099,14 @@ def worker_random(arg):
 # ----------------------------------------------------------------------------------------
 
 
+def worker_any(task):
+    t0 = _real_time.time()
+    which, arg = task
+    st = worker_exhaustive(arg) if which == "exhaustive" else worker_random(arg)
+    st.hist["worker-seconds:" + (which if which == "exhaustive" else arg[2])] += int(_real_time.time() - t0)
+    return st
+
+
 def _replay_case(case):
     return check_case(case, tolerate=False)[0]
 
@@ -1058,23 +1114,23 @@ def _replay_case(case):
 def main(run):
     _setup(run.scratch)
     common.replay_tier(run, _replay_case)
-    nw = 8 if run.tier == "quick" else 16
-    common.pool_map(run, __name__, "worker_exhaustive", [(i, nw, run.tier, run.scratch) for i in range(nw)], procs=nw)
+    nw = 8 if run.tier == "quick" else 16          # shards / seeds (fixed, so results do not depend on procs)
+    procs = max(1, min(16, int(os.environ.get("VERIF_PROCS") or 16)))
+    per = run.n(2000, 40000)
+    pers = run.n(400, 6000)
+    tasks = [("exhaustive", (i, nw, run.tier, run.scratch)) for i in range(nw)]
+    tasks += [("random", (common.worker_seed(run.seed, w), per, "json", run.scratch)) for w in range(nw)]
+    tasks += [("random", (common.worker_seed(run.seed, 200 + w), pers, "sqlite", run.scratch)) for w in range(nw)]
+    common.pool_map(run, __name__, "worker_any", tasks, procs=procs)
     mf, counts, limits = small_scope(run.tier)
     run.extra["exhaustive_subspace"] = (
         "every collection of <= %d history files x command counts %s x lock {no, live, stale} x limit %d..%d x "
         "units {commands, files} x force {off, on}, each through JsonHistory.run_gc on a real directory"
         % (mf, list(counts), limits[0], limits[-1]))
-    per = run.n(1500, 40000)
-    common.pool_map(run, __name__, "worker_random",
-                    [(common.worker_seed(run.seed, w), per, "json", run.scratch) for w in range(nw)], procs=nw)
-    pers = run.n(350, 6000)
-    common.pool_map(run, __name__, "worker_random",
-                    [(common.worker_seed(run.seed, 200 + w), pers, "sqlite", run.scratch) for w in range(nw)], procs=nw)
     h = run.stats.hist
     floors = [("limit-strictly-inside", 0.10), ("has-live", 0.10), ("has-stale", 0.05), ("zone:must-refuse", 0.03),
               ("zone:must-run", 0.03), ("zone:forced", 0.10)]
-    total = max(1, run.stats.evaluations)
+    total = max(1, sum(v for k, v in h.items() if k.startswith(("json:", "exhaustive:"))))
     low = [lab for lab, fl in floors if h.get(lab, 0) / total < fl]
     if low:
         raise common.HarnessError("generator incomplete: classes below their floor: %s" % low)
